@@ -56,6 +56,11 @@ void profile_mirror(RunCtx& ctx)
         ctx.count("models-with-branchpoints");
     if (m.has_free_process_params())
         ctx.count("models-with-free-process-parameters");
+    for (auto& i : m.insts)
+        if (!i.base.empty()) {
+            ctx.count("models-with-chained-instantiations");
+            break;
+        }
     size_t nedges = 0;
     for (auto& t : m.templs)
         nedges += t.edges.size();
